@@ -36,7 +36,7 @@ def run(tier, seed):
         (vh, "enumerated-unpoisoned", ["-seed", seed, "-in", hist_file, "-spec=false", "-poison=false"], False),
         (vh, "random-unpoisoned", ["-seed", seed + 3, "-n", 3 * n, "-len", ln, "-spec=false", "-poison=false"], False),
     ]
-    common.parallel(lambda j: poolsfam.histories(check, j[0], j[1], j[2], full=j[3]), jobs, jobs=len(jobs))
+    common.parallel_jobs(check, lambda j: poolsfam.histories(check, j[0], j[1], j[2], full=j[3]), jobs, jobs=len(jobs))
     check.coverage["rule"] = ("histories = sequences of calls over 21 classes (one-shot valid/invalid/nil data/failed json.Number conversion/composition/format; recycling schema, "
                               "parameter and header validators used once; whole-spec validation valid/invalid) + GC steps. enumerated: every sequence of length <= %d over the 19 schema-level "
                               "classes (TLC, Gen_Api). Each call's outcome (verdict, error set, warning set) must equal the outcome of the same call alone with nothing pooled (fresh mode); "
